@@ -63,8 +63,10 @@ func createStructDesc(rv reflect.Value) (*structDesc, error) {
 	}
 	sd, err := newStructDescAndPrefetch(rt)
 	if err != nil {
+		rollbackPrefetch()
 		return nil, err
 	}
+	commitPrefetch()
 	sds.Set(abiType, sd)
 	if rv.Kind() == reflect.Ptr {
 		sds.Set(rvTypePtr(rv), sd) // *struct and struct share the same structDesc
@@ -73,6 +75,32 @@ func createStructDesc(rv reflect.Value) (*structDesc, error) {
 }
 
 var prefetchStructDescCache = map[reflect.Type]*structDesc{}
+
+// journal of the build in progress, protected by sdsmu like the caches.
+// descs of mutually nested types refer to each other before all of them are known to be valid,
+// so if the build fails, everything it added must be taken back: see rollbackPrefetch
+var (
+	prefetchPendingKeys  []reflect.Type // keys added to prefetchStructDescCache
+	prefetchPendingTypes []*tType       // types whose Sd was set by fetchStructDesc
+)
+
+// commitPrefetch keeps the changes of a successful build
+func commitPrefetch() {
+	prefetchPendingKeys = prefetchPendingKeys[:0]
+	prefetchPendingTypes = prefetchPendingTypes[:0]
+}
+
+// rollbackPrefetch undoes the changes of a failed build,
+// so that the same error is returned next time, and valid types are not affected.
+func rollbackPrefetch() {
+	for _, k := range prefetchPendingKeys {
+		delete(prefetchStructDescCache, k)
+	}
+	for _, t := range prefetchPendingTypes {
+		t.Sd = nil
+	}
+	commitPrefetch()
+}
 
 func newStructDescAndPrefetch(t reflect.Type) (*structDesc, error) {
 	if sd := prefetchStructDescCache[t]; sd != nil {
@@ -83,6 +111,7 @@ func newStructDescAndPrefetch(t reflect.Type) (*structDesc, error) {
 		return nil, err
 	}
 	prefetchStructDescCache[t] = sd
+	prefetchPendingKeys = append(prefetchPendingKeys, t)
 	if err := prefetchSubStructDesc(sd); err != nil {
 		delete(prefetchStructDescCache, t)
 		return nil, err
@@ -122,6 +151,7 @@ func fetchStructDesc(t *tType) error {
 		return err
 	}
 	t.Sd = sd
+	prefetchPendingTypes = append(prefetchPendingTypes, t)
 	return nil
 }
 
